@@ -1156,6 +1156,7 @@ func cmdC18(args []string) error {
 	fs, out, seed := newFlags("c18")
 	nScen := fs.Int("n", 40, "scenarios")
 	maxReqs := fs.Int("reqs", 6, "max concurrent requesters per scenario")
+	withGlue := fs.Bool("glue", false, "also run the handler-side branch matrix and the API error paths")
 	fs.Parse(args)
 	rt := hookrt.Install(*seed)
 	defer hookrt.Uninstall()
@@ -1185,7 +1186,13 @@ func cmdC18(args []string) error {
 		}
 		all = append(all, sc)
 	}
-	return writeJSON(*out, map[string]interface{}{"scenarios": all, "strings": len(in.Tab)})
+	var glue []*c18GlueCase
+	var checks []c18Check
+	if *withGlue {
+		hookrt.Uninstall()
+		glue, checks = c18Glue(in)
+	}
+	return writeJSON(*out, map[string]interface{}{"scenarios": all, "strings": len(in.Tab), "glue": glue, "api_checks": checks})
 }
 
 func init() { register("c18", cmdC18) }
